@@ -27,6 +27,8 @@ type Loc struct {
 	// NonEmptyArray: arrays have at least one element (a zero-length repeated
 	// parameter or header cannot be told from an absent one)
 	NonEmptyArray bool
+	// SingleElemArray: arrays have exactly one element (open finding on response header arrays)
+	SingleElemArray bool
 	// MustSetDefaults: attributes with a default always get an explicit value
 	// (the generated client cannot express "unset" for them)
 	MustSetDefaults bool
@@ -262,6 +264,9 @@ func genValue(t *rapid.T, d *m.Design, a *m.Attr, loc Loc, depth int, stack []st
 			}
 		}
 		n := rapid.IntRange(lo, hi).Draw(t, "arraylen")
+		if loc.SingleElemArray && lo <= 1 && hi >= 1 {
+			n = 1
+		}
 		el := loc
 		el.InArray = true
 		out := value.V{K: "array", A: make([]value.V, 0, n)}
